@@ -55,7 +55,7 @@ def classify(line):
 # They reach lines of length 7-15 in exactly the shapes where the highlighter re-maps nested text onto the line.
 TEMPLATES = ["`X`Y", "`\\`X`Y", "`X\\`Y`", "$(X)Y", "$( X)Y", "\"X\"Y", "'X'Y", "$'X'Y", "${X}Y", "${a:-X}Y", "$((X))Y", "<<X\nY", "<<-X\nY", "<<\"X\"\nY", "<<''X\nY",
              "a <<E X\nY\nE\n", "X <<E | Y\nb\nE", "a <<E <<F\nX\nE\nY\nF\n", "\"$(X)\"Y", "\"`X`\"Y", "$(`X`)Y", "`$(X)`Y", "{ X;}Y", "(X)Y", "X\\\nY", "a=X Y", "#X\nY", "a;X|Y",
-             "\"${a:-X}\"Y", "<(X)Y", "[[ X ]]Y", "((X))Y", "case X in Y) esac", "if X; then Y; fi", "X &> Y", "a <<<X Y", "X() { Y; }", "$\"X\"Y", "a 2>X Y", "é`X`éY"]
+             "\"${a:-X}\"Y", "<(X)Y", "[[ X ]]Y", "((X))Y", "case X in Y) esac", "if X; then Y; fi", "X &> Y", "a <<<X Y", "X() { Y; }", "$\"X\"Y", "a 2>X Y", "é`X`éY", "<<X Y", "a <<X Y", "a <<-X\tY", "a <<X;Y", "$(a <<X Y)"]
 SLOT = ["a", " ", "\n", "\"", "'", "`", "\\", "$", "<", "(", ")", "é", "#", ";"]
 
 
